@@ -74,6 +74,10 @@ CHECKS = {
    text="Record.tla models the file-system graph (files, nested / empty directories, up to two symbolic links to files, directories, each other or an ancestor), the directory walk (real directories always entered, links to directories followed unless on the descent stack), strip-prefix selection, collision detection and the materials / command / products sequencing of a run. TLC enumerates graphs x argument lists x strip lists x commands and proves Exact, ErrIffCollision and EveryFileOnce on the walk machine; every graph is materialised in a temporary directory (four name classes, absolute and relative links, non-normalised arguments, sha256 / sha512 / both, empty to 1 MiB files) and record_artifacts / in_toto_run must return exactly the specification's entries with independently recomputed digests, byproducts equal to the command's streams and status.",
    note="Trusted: TLC, walkdir / the OS for link resolution, ring for the independent digests. Bounds: the fixed skeleton of 4 files, 3 directories, 2 links; dangling links and non-existent arguments are outside the quantifier; one file reachable by two paths with the same key is left open (error or one entry).",
    tech="TLA+ spec Record.tla (walk machine) model-checked with TLC; spec->impl replay of every graph on a real directory tree"),
+ "C14": dict(cat="exploration", ref="§4 C14, §3.5",
+   text="Exploration guided by a TLA+ specification: Robust.tla states totality of every entry point (value or error, no other outcome) and defines an adversarial class lattice per field of link files, layouts, rule inputs and key material; TLC enumerates every document with at most two unusual fields (all pairs of classes) and each is offered to all parsers, key importers, block verification, rule application and final-product verification (file placed in the link directory before any signature check) under a panic guard in worker processes whose death is attributed to the scenario; the call log is validated against Trace_Robust.tla, which has no step for a panic. Byte level: seeded mutation (bit flips, truncation, splices, interesting tokens) of well-formed documents. 'All byte strings' is explored, not decided.",
+   note="Trusted: TLC for the enumeration; catch_unwind / process exit status as the crash observers; a hang shows as a harness timeout (tool error). Coverage is pairwise over the listed classes plus 20 k (quick) / 2 M (thorough) mutants.",
+   tech="TLA+ spec Robust.tla (totality + class lattice) enumerated with TLC; every document and seeded byte mutants offered to all entry points under a crash monitor; call-log trace validation (Trace_Robust.tla)"),
  "C03": dict(cat="model_checking", ref="§4 C03, §3.3",
    text="Rules.tla transcribes the in-toto specification's artifact-rule algorithm (functional form and a state machine with one Apply step per rule; TLC checks that both agree, that the queue only shrinks and that a rule only consumes artifacts its pattern / source prefix matches). TLC enumerates rule lists x item link states x referenced-step states; every scenario is run through the real rule engine and the verdict must equal the specification's; seeded random scenarios beyond the bounds (up to 4+4 rules, 6 paths, nested prefixes) are validated step by step (consumed set and remaining queue after every rule, hook in rulelib.rs) against Trace_Rules.tla.",
    note="Trusted: TLC, glob::Pattern (default options) as fnmatch, the harness builders. Inputs restricted to C03's own quantifier: normalised relative paths, portable glob syntax; '[' only in DISALLOW. Bounds: 3 paths, 57-rule alphabet, rule lists <= 2 in TLC (<= 4+4 in traces).",
